@@ -31,6 +31,16 @@ Theorem C03_uri_literal : forall g ver3 s e rest, escape_uri s = Ok e ->
   p_scalar (S g) ver3 (BQ :: e ++ BQ :: rest) = Some (Ok (VUri s), rest).
 Proof. intros. apply scalar_uri. assumption. Qed.
 
+(* `_` digit separators: ANY non-empty run of digits and underscores (single, doubled, trailing) is read as its digits *)
+Theorem C03_digit_separators : forall u rest, u <> [] -> Forall (fun c => is_digit_us c = true) u ->
+  (match rest with c :: _ => is_digit_us c = false | [] => True end) ->
+  p_digits (u ++ rest) = Some (Ok (filter (fun c => negb (c =? 95)) u), rest).
+Proof. exact digits_with_separators. Qed.
+(* optional blanks around commas: any number of blanks before and after *)
+Theorem C03_blanks_around_commas : forall a b rest, (match rest with c :: _ => is_sp c = false | [] => True end) ->
+  value_sep (blanks a ++ 44 :: blanks b ++ rest) = Some (Ok tt, rest).
+Proof. exact comma_with_blanks. Qed.
+
 (* spellings, computed (tests of the model, not unbounded claims) *)
 Example C03_spellings :
   zparse_scalar true (s_ "1_000") = Ok (VNum NkFin (s_ "1000") (s_ "1000") None) /\
@@ -40,6 +50,8 @@ Example C03_spellings :
   zparse_scalar true (s_ """e\$""") = Ok (VStr [101; 36]).
 Proof. vm_compute. repeat split; reflexivity. Qed.
 
+Print Assumptions C03_digit_separators.
+Print Assumptions C03_blanks_around_commas.
 Print Assumptions C03_final_newline_optional.
 Print Assumptions C03_empty_input.
 Print Assumptions C03_line_ends.
